@@ -11,6 +11,9 @@ from ..tlc import MachineryError, cleanup, run_tlc, workdir
 MISC = {"none": {}, "m1": {"a": [1, 2], "b": {"c": None}, "ü": "x"}}
 
 
+from hugr import tys as tys_mod  # noqa: E402
+
+
 def build_typedef(d):
     from hugr import ext
     b = d["bspec"]
@@ -131,6 +134,7 @@ def run(ctx: Ctx) -> None:
             try:
                 e = Extension("verif.ext", ext.Version.parse(ln["ext"]["version"]), runtime_reqs={"logic", "prelude"})
                 for ev in hist:
+                    e.to_json()                        # the extension is serialized between the additions too: ToJson is a function of the state
                     if ev["a"] == "AddTypeDef":
                         e.add_type_def(build_typedef(ev["d"]))
                     elif ev["a"] == "AddOpDef":
@@ -153,6 +157,16 @@ def run(ctx: Ctx) -> None:
                 j2 = json.loads(e2.to_json())
                 if W.canon(j1) != W.canon(j2):
                     ctx.violation(dict(sig, what="re-serialization"), ln, "same document", diff(j1, j2), clause="ExtensionDefs!RoundTrip")
+                    return
+                # FromJson builds a fresh extension every time: what is done to one loaded copy does not show in the next
+                text = e.to_json()
+                first = Extension.from_json(text)
+                first.add_type_def(ext.TypeDef("AddedToTheFirstCopy", "", [], ext.ExplicitBound(tys_mod.TypeBound.Copyable)))
+                second = Extension.from_json(text)
+                d = diff(exp, project(second))
+                if d or second is first:
+                    ctx.violation(dict(sig, what="second load of the same document"), ln, "the document's extension", d or "the same object as the first load",
+                                  clause="ExtensionDefs!FromJson (a function of the document)")
                     return
                 for o in e.operations.values():
                     pf = o.signature.poly_func
